@@ -96,6 +96,10 @@ theorem detailsKey_other_ne (ty : DType) :
     detailsKey (otherTy ty) ≠ detailsKey ty ∧ fieldPoolId ≠ detailsKey (otherTy ty) := by
   cases ty <;> exact ⟨by decide, by decide⟩
 
+private theorem ite_err_ne_ok {ε α : Type} (c : Prop) [Decidable c] (a b : ε) (x : α) :
+    (if c then (Except.error a : Except ε α) else Except.error b) ≠ Except.ok x := by
+  split <;> exact fun h => nomatch h
+
 /-- text written for one delegation type never decodes under the other type as soon as it carries any
 details (a single-resource delegation or a pool definition): `KeyError` on the missing key -/
 theorem decode_rejects_other_type (ops : DetailOps D) (ds : Delegations D) (h : WF ops ds)
@@ -109,9 +113,12 @@ theorem decode_rejects_other_type (ops : DetailOps D) (ds : Delegations D) (h : 
   have k3 := poolId_ne_detailsKey ds.ty
   cases hf : d.fmt with
   | reference => exact hfmt hf
-  | single => simp [encPure, hf, decodeEntry, lookup, k1, k1.symm, k2, k2.symm, k3, poolOf, bind, Except.bind] at hb
+  | single =>
+    simp [encPure, hf, decodeEntry, lookup, k1, k1.symm, k2, k2.symm, k3, poolOf, bind, Except.bind] at hb
+    exact ite_err_ne_ok _ _ _ _ hb
   | definition =>
     simp [encPure, hf, decodeEntry, lookup, k1, k1.symm, k2, k2.symm, k3, poolOf, bind, Except.bind] at hb
+    exact ite_err_ne_ok _ _ _ _ hb
 
 /-! `add_delegations(*args)` is modelled call by call (`addDelegations ds args`: the container afterwards and
 the exception, if any). -/
